@@ -65,9 +65,21 @@ def r1_post(c):
     title = c.a["section_title"].t
     letter = upper(z3.SubString(title, 1, 1))
     same = lambda nm: c.eng.to_obj(c.v(nm)) == c.eng.to_obj(c.a[nm])
+    v = LI.View(c, selfname="sct_items")
+    kk = z3.Int("kk_r1")
+
+    def taken(local, key, sec_letter):
+        # the steering value is the value of the section's (first) item of that name whenever there is one - whatever the value is
+        return ("%s-is-taken-from-~%s-whenever-it-is-there" % (key, sec_letter), z3.Implies(
+            letter == z3.StringVal(sec_letter),
+            z3.And(z3.ForAll([kk], z3.Implies(LI.first_match(v, z3.StringVal(key), kk),
+                                              c.eng.to_obj(c.v(local)) == z3.Select(c.h("value"), v.item(kk)))),
+                   z3.Implies(LI.nomatch(v, z3.StringVal(key)), same(local)))))
     return [("VERS-WRAP-DLM-only-from-~Version", z3.Implies(letter != z3.StringVal("V"), z3.And(
                 same("provisional_version"), same("provisional_wrapped"), same("provisional_delimiter")))),
-            ("NULL-only-from-~Well", z3.Implies(letter != z3.StringVal("W"), same("provisional_null")))]
+            ("NULL-only-from-~Well", z3.Implies(letter != z3.StringVal("W"), same("provisional_null"))),
+            taken("provisional_null", "NULL", "W"), taken("provisional_version", "VERS", "V"),
+            taken("provisional_wrapped", "WRAP", "V"), taken("provisional_delimiter", "DLM", "V")]
 
 
 R1 = REG.add(Contract(
@@ -77,7 +89,7 @@ R1 = REG.add(Contract(
     requires=lambda c: LI.shape(c, selfname="sct_items") + [("title-has-a-letter", z3.Length(c.a["section_title"].t) >= 2)],
     ensures=r1_post,
     verify_with=block_verifier("las.LASFile.read", 'if section_title[1].upper() == "V":', 'if section_title[1].upper() == "W":', "las"),
-    properties=("C05", "C19"), may_raise=["AttributeError"]))
+    properties=("C05", "C19", "C06"), may_raise=["AttributeError"]))
 R1.note = ("sct_items.VERS is attribute access through SectionItems.__getattr__ (contract: AttributeError exactly when no item matches), "
            "guarded by the preceding `in` test")
 
